@@ -122,8 +122,19 @@ def _strategy_feat(shapes):
         px_diag = Dx >= 2 and draw(st.sampled_from([False] * 4 + [True]))
         return {"Dx": Dx, "Dy": Dy, "Dk": Dk, "Rx": Rx, "kind": kind, "c": draw(gen.feature_params(kind, Dx, Dy, Dk)),
                 "px": {"Sigma": draw(gen.spd(Rx, Dx, kappa=6.0, lam_lo=0.15, lam_hi=0.4, diag=px_diag)), "mu": draw(gen.arr((Rx, Dx), -1.5, 1.5))},
-                "px_diag": px_diag, "x": draw(gen.arr((3, Dx), -2, 2))}
+                "px_diag": px_diag, "x": draw(gen.arr((3, Dx), -2, 2)),
+                # objects with a past (a third of the cases each): the conditional is first built with another noise
+                # covariance, queried, and brought to the target with update_Sigma; p(x) is first handed to the conditional's
+                # transformations and then updated in place
+                "past": ({"Sigma0": draw(gen.spd(1, Dy, kappa=30.0))} if draw(st.sampled_from([False, False, True])) else None),
+                "upd": _px_update(draw, Rx, Dx, px_diag) if draw(st.sampled_from([False, False, True])) else None}
     return s()
+
+
+def _px_update(draw, Rx, Dx, px_diag):
+    k = draw(st.integers(1, Rx))
+    idx = list(draw(st.permutations(list(range(Rx))))[:k])
+    return {"idx": idx, "p": {"Sigma": draw(gen.spd(k, Dx, kappa=6.0, lam_lo=0.15, lam_hi=0.4, diag=px_diag)), "mu": draw(gen.arr((k, Dx), -1.5, 1.5))}}
 
 
 def _run_feat(case):
@@ -137,10 +148,14 @@ def _run_feat(case):
     def mean_fn(X):
         return np.concatenate([X, kfun(X)], 1) @ M.T + b
 
-    ok, c = lib(fails, "construct_feature", libx.make_feature, case["c"])
-    ok2, px = lib(fails, "construct_px", libx.make_measure, "diag_pdf" if case.get("px_diag") else "pdf", case["px"])
-    if not (ok and ok2):
+    c = libx.feature_with_past(fails, case["c"], case.get("past"))
+    if c is None:
         return fails
+    px, mx_now, Sx_now = libx.density_with_past(fails, "diag_pdf" if case.get("px_diag") else "pdf", case["px"], case.get("upd"),
+                                                 warm=lambda p: (c.affine_joint_transformation(p), c.affine_marginal_transformation(p)))
+    if px is None:
+        return fails
+    case = dict(case, px={"mu": mx_now, "Sigma": Sx_now})
     # read-out: conditional mean is the stated linear read-out of x and of unit-height bumps
     x = np.asarray(case["x"], float)
     ok, d = lib(fails, f"{kind}.cond(x)", lambda: c(J(x)))
@@ -251,6 +266,7 @@ def _strategy_het(shapes):
                 "c": draw(gen.het_params(kind, Dx, Dy, Da, Dk, wscale=draw(st.sampled_from([0.3, 1.0])))),
                 "px_diag": px_diag,
                 "px": draw(gen.measure_params("diag_pdf" if px_diag else "pdf", Rx, Dx, draw(st.sampled_from([5.0, 30.0])))),
+                "upd": draw(gen.maybe_update("diag_pdf" if px_diag else "pdf", Rx, Dx, kappa=5.0, p=0.3)),
                 "x": draw(gen.arr((3, Dx), -2, 2))}
     return s()
 
@@ -267,9 +283,14 @@ def _run_het(case):
     Ak = A[:, :Dk]
     AAt = A @ A.T
     ok, c = lib(fails, "construct_het", libx.make_het, p)
-    ok2, px = lib(fails, "construct_px", libx.make_measure, "diag_pdf" if case.get("px_diag") else "pdf", case["px"])
-    if not (ok and ok2):
+    if not ok:
         return fails
+    # p(x) may have a past: handed to the conditional's transformations, then updated in place
+    px, mx_now, Sx_now = libx.density_with_past(fails, "diag_pdf" if case.get("px_diag") else "pdf", case["px"], case.get("upd"),
+                                                 warm=lambda q: (c.affine_joint_transformation(q), c.affine_marginal_transformation(q)))
+    if px is None:
+        return fails
+    case = dict(case, px={"mu": mx_now, "Sigma": Sx_now})
     # read-out of the object itself: mean Mx+b, covariance AA' + A_k diag(link(Wx+w0)) A_k'
     x = np.asarray(case["x"], float)
     h = x @ W[:, 1:].T + W[:, 0]
@@ -320,9 +341,10 @@ def _nontrivial_het(case):
 
 SUBS = [
     Sub("feature", _pool_feat, _strategy_feat, _run_feat, _nontrivial_feat,
-        lambda c: [f"kind={c['kind']}", f"Dx={c['Dx']}", f"Rx={c['Rx']}", f"Dk={'>16' if c['Dk'] > 16 else '<=5'}", "px=diag" if c.get("px_diag") else "px=full"],
+        lambda c: [f"kind={c['kind']}", f"Dx={c['Dx']}", f"Rx={c['Rx']}", f"Dk={'>16' if c['Dk'] > 16 else '<=5'}", "px=diag" if c.get("px_diag") else "px=full",
+                   "cond_past=update_Sigma" if c.get("past") else "cond_fresh", "px_past=update" if c.get("upd") else "px_fresh"],
         examples={"quick": 50, "thorough": 300}, shards={"quick": 9, "thorough": 17}, rule="(Dk>=2 or Dx>=2) and overlap"),
     Sub("heteroscedastic", _pool_het, _strategy_het, _run_het, _nontrivial_het,
-        lambda c: [f"kind={c['kind']}", f"Dx={c['Dx']}", f"Rx={c['Rx']}", "Da>Dy" if c["Da"] > c["Dy"] else "Da=Dy", "px=diag" if c.get("px_diag") else "px=full"],
+        lambda c: [f"kind={c['kind']}", f"Dx={c['Dx']}", f"Rx={c['Rx']}", "Da>Dy" if c["Da"] > c["Dy"] else "Da=Dy", "px=diag" if c.get("px_diag") else "px=full", "px_past=update" if c.get("upd") else "px_fresh"],
         examples={"quick": 60, "thorough": 350}, shards={"quick": 8, "thorough": 12}, rule="(Dk>=2 or Dx>=2), non-zero offsets, overlap"),
 ]
